@@ -128,7 +128,10 @@ def crate_source(defs, queries, values):
     lines = G.MAIN_PRELUDE.split("\n")
     owner = {}
     for d in defs:
-        src = C.to_rust(d).replace("Debug, Clone, PartialEq", "").replace("Serialize, Deserialize, ", "Serialize, Deserialize").split("\n")
+        src = C.to_rust(d)
+        if not d.get("as_key"):     # (a map key type keeps its comparison derives)
+            src = src.replace("Debug, Clone, PartialEq", "").replace("Serialize, Deserialize, ", "Serialize, Deserialize")
+        src = src.split("\n")
         for l in src:
             owner[len(lines) + 1] = d["ident"]
             lines.append(l)
